@@ -345,6 +345,57 @@ fn run_completeness_after_punctures(cx: &mut CaseCx, case: &Value) {
   cx.outcome("complete after punctures");
 }
 
+
+/// E-env on the proof nonce: it must be a fresh draw from the OS entropy source - not a function of the key and
+/// the statement (a nonce that can be recomputed from the key state plus a recorded proof gives the tag key away:
+/// k = (r - s) / c). Same scripted entropy => same proof; other entropy => another commitment; the identical
+/// request asked twice under fresh entropy => two different proofs; entropy consumed per proof >= 32 bytes.
+fn run_nonce_entropy(cx: &mut CaseCx, _case: &Value) {
+  let w = world(cx, 0);
+  for &md in TAGS.iter().take(2) {
+    let (blinded, _) = pp::Client::blind(b"nonce entropy");
+    let proof_with = |script: &[u8]| -> Option<(Vec<u8>, u64)> {
+      getrandom::verif::set_script(script);
+      let before = getrandom::verif::total_bytes();
+      let r = guard(|| w.server.eval(&blinded, md, true).ok().and_then(|e| e.proof.and_then(|p| p.serialize_to_bincode().ok())));
+      let used = getrandom::verif::total_bytes() - before;
+      getrandom::verif::clear_script();
+      r.ok().flatten().map(|p| (p, used))
+    };
+    let base = prbytes(0x90CE, 64);
+    let (p0, used) = match proof_with(&base) {
+      Some(x) => x,
+      None => return,
+    };
+    cx.count("entropy_bytes_per_proof", used);
+    cx.eval();
+    cx.nontrivial(md as u64);
+    if used < 32 {
+      cx.viol("C13/nonce-not-fresh-entropy", format!("issuing a proof for tag {} consumed only {} bytes of OS entropy: the nonce is not a fresh 256-bit draw (a nonce derived from the key and the statement can be recomputed by whoever later obtains the key state)", md, used), json!({"tag": md, "entropy_bytes_consumed": used}));
+      return;
+    }
+    if proof_with(&base).map(|x| x.0) != Some(p0.clone()) {
+      cx.count("proof_depends_on_more_than_entropy", 1);
+    }
+    // the identical request under other entropy: another commitment (c and s both change)
+    let mut seen: std::collections::HashSet<Vec<u8>> = std::collections::HashSet::new();
+    seen.insert(p0[..32].to_vec());
+    for byte in 0..16 {
+      let mut b = base.clone();
+      b[byte] ^= 0x40;
+      cx.eval();
+      if let Some((p, _)) = proof_with(&b) {
+        if !seen.insert(p[..32].to_vec()) {
+          cx.viol("C13/nonce-reused", format!("two proofs for the identical request (tag {}) issued under DIFFERENT OS entropy (byte {} differs) have the same challenge, i.e. the same commitments: the nonce does not depend on the entropy it is given", md, byte), json!({"tag": md, "entropy_byte": byte}));
+          return;
+        }
+      }
+    }
+    cx.count("nonce_entropy_variants_distinct", 16);
+  }
+  cx.outcome("nonce is fresh entropy");
+}
+
 fn run_soundness(cx: &mut CaseCx, case: &Value) {
   let w = world(cx, 0);
   let w2 = world(cx, 1);
@@ -404,7 +455,7 @@ fn run_soundness(cx: &mut CaseCx, case: &Value) {
   };
   let comps: Vec<(&'static str, Vec<(String, [u8; 32])>)> = vec![
     ("public key base point", repl(&base, vec![("other server's", Some(w2.pkb[..32].try_into().unwrap())), ("+G", add_g(&base)), ("identity", Some(ident)), ("tag point", Some(tagp))])),
-    ("public key tag point", repl(&tagp, vec![("other server's", Some(w2.pkb[slot2..slot2 + 32].try_into().unwrap())), ("other tag's", Some(w.pkb[other_slot..other_slot + 32].try_into().unwrap())), ("+G", add_g(&tagp)), ("identity", Some(ident)), ("base point", Some(base))])),
+    ("public key tag point", repl(&tagp, vec![("negated base point (entries cancel out)", CompressedRistretto(base).decompress().map(|b| (-b).compress().to_bytes())), ("other server's", Some(w2.pkb[slot2..slot2 + 32].try_into().unwrap())), ("other tag's", Some(w.pkb[other_slot..other_slot + 32].try_into().unwrap())), ("+G", add_g(&tagp)), ("identity", Some(ident)), ("base point", Some(base))])),
     ("input point", repl(&h.blinded, vec![("another honest request", Some(h_other_input.blinded)), ("+G", add_g(&h.blinded)), ("identity", Some(ident)), ("output point", Some(h.output))])),
     ("output point", repl(&h.output, vec![("of another input", Some(h_other_input.output)), ("of another tag", Some(h_other_tag.output)), ("of another server", Some(h_other_server.output)), ("+G", add_g(&h.output)), ("identity", Some(ident)), ("input point", Some(h.blinded))])),
     ("challenge c", repl(&c_bytes, vec![("+ l (second encoding of the same residue)", sc_plus_order(&c_bytes, 1)), ("+ 2l", sc_plus_order(&c_bytes, 2)), ("+1", sc_plus1(&c_bytes)), ("negated", sc_neg(&c_bytes)), ("zero", Some([0u8; 32])), ("of another proof", Some(h_other_input.proof[..32].try_into().unwrap())), ("response s", Some(s_bytes))])),
@@ -448,6 +499,20 @@ fn run_soundness(cx: &mut CaseCx, case: &Value) {
         Ok(true) => cx.viol(format!("C13/sound/{}-substitution-accepted", comp.replace(' ', "-")), format!("Client::verify accepted an evaluation whose {} was replaced ({})", comp, how), json!({"tag": md, "component": comp, "replacement": how, "value": hex(&val)})),
         Err(p) => cx.viol("C13/verify-panicked", format!("Client::verify panicked on a tampered {} ({}): {}", comp, how, p), json!({"tag": md, "component": comp, "replacement": how})),
       }
+    }
+  }
+  // the proof removed altogether: an evaluation without a proof proves nothing
+  {
+    cx.eval();
+    let ev = pp::Evaluation { output: pt(&h.output), proof: None };
+    match guard(|| pp::Client::verify(&w.pk, &pt(&h.blinded), &ev, md)) {
+      Ok(false) => cx.count("tampering_rejected", 1),
+      Ok(true) => cx.viol("C13/sound/missing-proof-accepted", "Client::verify accepted an evaluation that carries NO proof (the honest output with its proof stripped): any output would be accepted", json!({"tag": md})),
+      Err(p) => cx.viol("C13/verify-panicked", format!("Client::verify panicked on an evaluation without proof: {}", p), json!({"tag": md})),
+    }
+    let ev = pp::Evaluation { output: pt(&h_other_input.output), proof: None };
+    if guard(|| pp::Client::verify(&w.pk, &pt(&h.blinded), &ev, md)) == Ok(true) {
+      cx.viol("C13/sound/missing-proof-accepted", "Client::verify accepted a WRONG output that carries no proof", json!({"tag": md}));
     }
   }
   // the tag argument: EVERY other value 0..=255 (registered, unregistered, below / above / between published tags)
@@ -794,6 +859,7 @@ pub fn spec() -> PropSpec {
         run: run_completeness_after_punctures,
         min_counts: &[("honest_verified", 1200)],
       },
+      Check { name: "nonce-entropy", rule: "E-env on the proof nonce (2 tags): issuing a proof consumes at least 32 bytes of OS entropy; the identical request under 16 single-bit variants of the first 16 entropy bytes gives 17 pairwise different challenges (commitments) - a nonce computed from the key and the statement instead of fresh entropy is recomputable from the key state", gen: |_| vec![json!({})], run: run_nonce_entropy, min_counts: &[("nonce_entropy_variants_distinct", 32)] },
       Check { name: "nonces", rule: "commitment s*G + c*PK recomputed for every proof issued (6 inputs x 4 tags x the identical request repeated 4 times; then the same requests answered in lockstep by the original server, a clone, a clone of the clone and a server restored from the exported state): pairwise distinct (about 860 proofs on one thread, more than any plausible per-thread pool)", gen: |_| vec![json!({})], run: run_nonces, min_counts: &[("proofs_issued", 90)] },
     ],
   }
